@@ -267,7 +267,18 @@ public:
   struct FnCtx {
     llvm::DenseMap<const Stmt *, int> ids;
     std::vector<std::string> nodes; // JSON text per node
+    llvm::DenseMap<const VarDecl *, int> vids; // distinct local variables of the same name (different scopes) are numbered apart
+    std::map<std::string, int> nameCount;
   };
+
+  int vidOf(FnCtx &F, const VarDecl *VD) {
+    VD = VD->getCanonicalDecl();
+    auto it = F.vids.find(VD);
+    if (it != F.vids.end()) return it->second;
+    int v = ++F.nameCount[VD->getNameAsString()];
+    F.vids[VD] = v;
+    return v;
+  }
 
   const Expr *strip(const Expr *E) {
     while (E) {
@@ -444,9 +455,10 @@ public:
       else if (isa<FieldDecl>(D)) dk = "field";
       else if (isa<BindingDecl>(D)) dk = "binding";
       a += ",\"dk\":" + q(dk);
-      if (isa<ParmVarDecl>(D) || (isa<VarDecl>(D) && cast<VarDecl>(D)->isLocalVarDecl()))
+      if (isa<ParmVarDecl>(D) || (isa<VarDecl>(D) && cast<VarDecl>(D)->isLocalVarDecl())) {
         a += ",\"name\":" + q(D->getNameAsString());
-      else
+        a += ",\"vid\":" + std::to_string(vidOf(F, cast<VarDecl>(D)));
+      } else
         a += ",\"name\":" + q(patName(D));
       if (auto *VD = dyn_cast<VarDecl>(D))
         if (VD->getTLSKind() != VarDecl::TLS_None) a += ",\"tls\":1";
@@ -523,6 +535,7 @@ public:
         if (auto *VD = dyn_cast<VarDecl>(D)) {
           if (!vars.empty()) vars += ",";
           vars += "{\"name\":" + q(VD->getNameAsString()) + ",\"t\":" + q(typeSummary(VD->getType()));
+          vars += ",\"vid\":" + std::to_string(vidOf(F, VD));
           if (VD->isStaticLocal()) vars += ",\"static\":1";
           if (VD->getInit()) {
             int k = emit(F, VD->getInit());
